@@ -1,23 +1,554 @@
-//! K3: library runs with DRCP proof logging, checked by the independent checker (filled in below).
-use crate::exec::{Case, Outcome};
+//! K3 (C06): library runs with DRCP proof logging; the proof and literal-definition files are the
+//! recorded history, checked afterwards by an independent checker (own line parser, semantic
+//! check of every inference against the single tagged constraint, domain-aware reverse unit
+//! propagation for every nogood).
+use std::cell::RefCell;
+use std::collections::{BTreeMap, HashMap};
+use std::sync::atomic::{AtomicU64, Ordering};
+
+use pumpkin_solver::optimisation::linear_sat_unsat::LinearSatUnsat;
+use pumpkin_solver::optimisation::linear_unsat_sat::LinearUnsatSat;
+use pumpkin_solver::optimisation::OptimisationDirection;
+use pumpkin_solver::proof::{Format, ProofLog};
+use pumpkin_solver::results::{OptimisationResult, SatisfactionResult, Solution, SolutionReference};
+use pumpkin_solver::Solver;
+
+use crate::adapter::{self, Binding};
+use crate::exec::{Case, Op, Outcome, Stats, Violation};
+use crate::ir::{assignments_over, Con, RefModel, VarDecl, View};
 use crate::json::J;
+use crate::sched::{build_brancher, FaultClock};
+use crate::with_brancher;
 
 #[derive(Clone, Debug, PartialEq)]
 pub struct ProofCase {
     pub case: Case,
+    pub inferences: bool,
+    pub hints: bool,
+}
+
+static COUNTER: AtomicU64 = AtomicU64::new(0);
+
+#[derive(Clone, Copy, Debug, PartialEq)]
+struct Atom {
+    var: usize,
+    /// 0 <=, 1 ==, 2 >= (negated <= with value+1), 3 !=
+    op: u8,
+    value: i64,
+}
+
+impl Atom {
+    fn holds_value(&self, x: i32) -> bool {
+        let x = x as i64;
+        match self.op {
+            0 => x <= self.value,
+            1 => x == self.value,
+            2 => x >= self.value,
+            _ => x != self.value,
+        }
+    }
+    fn holds(&self, a: &[i32]) -> bool {
+        self.holds_value(a[self.var])
+    }
+    fn negate(&self) -> Atom {
+        match self.op {
+            0 => Atom { var: self.var, op: 2, value: self.value + 1 },
+            2 => Atom { var: self.var, op: 0, value: self.value - 1 },
+            1 => Atom { var: self.var, op: 3, value: self.value },
+            _ => Atom { var: self.var, op: 1, value: self.value },
+        }
+    }
+    fn show(&self) -> String {
+        format!("[x{} {} {}]", self.var, ["<=", "==", ">=", "!="][self.op as usize], self.value)
+    }
+}
+
+fn viol(class: &str, msg: String) -> Violation {
+    Violation { class: class.to_string(), msg, op_index: 0 }
 }
 
 impl ProofCase {
     pub fn to_json(&self) -> J {
-        J::obj(vec![("type", J::s("proof")), ("case", self.case.to_json())])
+        J::obj(vec![("type", J::s("proof")), ("prop", J::s(&self.case.prop)), ("inferences", J::Bool(self.inferences)), ("hints", J::Bool(self.hints)), ("case", self.case.to_json())])
     }
     pub fn from_json(j: &J) -> ProofCase {
-        ProofCase { case: Case::from_json(j.at("case")) }
+        ProofCase { case: Case::from_json(j.at("case")), inferences: j.at("inferences").as_bool(), hints: j.at("hints").as_bool() }
     }
     pub fn candidates(&self) -> Vec<ProofCase> {
-        vec![]
+        let mut out: Vec<ProofCase> = crate::shrink::candidates(&self.case)
+            .into_iter()
+            .filter(crate::shrink::valid)
+            // the final operation stays; only one solve per proof
+            .filter(|c| c.ops.iter().filter(|o| o.is_solve()).count() == 1 && c.ops.last().is_some_and(|o| o.is_solve()) && c.knobs.uip)
+            .map(|c| ProofCase { case: c, inferences: self.inferences, hints: self.hints })
+            .collect();
+        if self.hints {
+            out.push(ProofCase { case: self.case.clone(), inferences: self.inferences, hints: false });
+        }
+        out
     }
+
     pub fn run(&self) -> Outcome {
-        unimplemented!()
+        let mut stats = Stats::default();
+        let violation = self.run_inner(&mut stats).err();
+        let trace = crate::rng::fnv(self.to_json().to_string().as_bytes());
+        Outcome { violation, trace, stats, polls_per_op: vec![], aborted: None }
+    }
+
+    fn run_inner(&self, stats: &mut Stats) -> Result<(), Violation> {
+        let n = COUNTER.fetch_add(1, Ordering::SeqCst);
+        let dir = format!("{}/.work/proof-{}-{}", crate::verif_root(), std::process::id(), n);
+        let _ = std::fs::create_dir_all(&dir);
+        let path = format!("{dir}/p.drcp");
+        let result = self.solve_and_check(&path, stats);
+        let _ = std::fs::remove_dir_all(&dir);
+        result
+    }
+
+    fn solve_and_check(&self, path: &str, stats: &mut Stats) -> Result<(), Violation> {
+        let case = &self.case;
+        let proof = ProofLog::cp(std::path::Path::new(path), Format::Text, self.inferences, self.hints).map_err(|e| viol("HARNESS:proof-file", e.to_string()))?;
+        let mut solver = Solver::with_options(case.knobs.options(proof));
+        let mut binding = Binding::default();
+        let mut refm = RefModel::new();
+        let mut occ: Vec<u32> = vec![];
+        let mut final_op: Option<&Op> = None;
+        for op in &case.ops {
+            match op {
+                Op::AddVar(d) => {
+                    binding.add_var(&mut solver, d, Some(format!("x{}", refm.vars.len())));
+                    refm.add_var(d.clone());
+                    occ.push(0);
+                }
+                Op::Post(c) => {
+                    for v in c.scope() {
+                        occ[v] += 1;
+                    }
+                    let tag = refm.cons.len() as u32 + 1;
+                    // an infeasibility error while posting is fine: the final solve concludes
+                    let _ = adapter::post(&mut solver, &binding, c, Some(tag));
+                    refm.add_con(c.clone());
+                }
+                o if o.is_solve() => final_op = Some(o),
+                _ => {}
+            }
+        }
+        let Some(final_op) = final_op else { return Ok(()) };
+        let b2 = binding.clone();
+        let f = move |p: &crate::ir::Pred| b2.pred(p);
+        let mut br = build_brancher(&case.brancher, &solver, &binding.vars, &occ, &f);
+        let mut clock = FaultClock::never(case.budget.saturating_mul(4));
+        let incumbents: RefCell<Vec<Solution>> = RefCell::new(vec![]);
+        // (kind, optimal solution): kind 0 unsat, 1 optimal
+        let mut concluded: Option<(u8, Option<Solution>)> = None;
+        let mut objective: Option<(View, bool)> = None;
+        match final_op {
+            Op::Satisfy { .. } => {
+                let r = with_brancher!(&mut br, b => solver.satisfy(b, &mut clock));
+                if let SatisfactionResult::Unsatisfiable = r {
+                    concluded = Some((0, None));
+                }
+            }
+            Op::Optimise { obj, minimise, sat_unsat, .. } => {
+                objective = Some((*obj, *minimise));
+                let dir = if *minimise { OptimisationDirection::Minimise } else { OptimisationDirection::Maximise };
+                let view = binding.view(obj);
+                let r = with_brancher!(&mut br, b => {
+                    fn cb_of<'a, B>(inc: &'a RefCell<Vec<Solution>>) -> impl Fn(&Solver, SolutionReference, &B) + 'a {
+                        move |_: &Solver, s: SolutionReference, _: &B| inc.borrow_mut().push(s.into())
+                    }
+                    if *sat_unsat {
+                        solver.optimise(b, &mut clock, LinearSatUnsat::new(dir, view, cb_of(&incumbents)))
+                    } else {
+                        solver.optimise(b, &mut clock, LinearUnsatSat::new(dir, view, cb_of(&incumbents)))
+                    }
+                });
+                match r {
+                    OptimisationResult::Optimal(s) => concluded = Some((1, Some(s))),
+                    OptimisationResult::Unsatisfiable => concluded = Some((0, None)),
+                    _ => {}
+                }
+            }
+            _ => return Ok(()),
+        }
+        stats.polls = clock.polls;
+        stats.solves = 1;
+        drop(br);
+        drop(solver);
+        let Some((kind, opt_solution)) = concluded else { return Ok(()) };
+        // verdict sanity (the answer itself is C02 / C04's subject)
+        if kind == 0 && !refm.sols.is_empty() {
+            return Ok(());
+        }
+        let proof_text = std::fs::read_to_string(path).map_err(|e| viol("H-PROOF:no-proof-file", format!("{e}")))?;
+        if std::env::var("VERIF_DUMP_PROOF").is_ok() {
+            eprintln!("--- proof ---\n{proof_text}");
+        }
+        let lits_path = std::path::Path::new(path).with_extension("lits");
+        let lits_text = std::fs::read_to_string(&lits_path).map_err(|e| viol("H-PROOF:no-literal-definition-file", format!("the solver concluded but wrote no literal definition file: {e}")))?;
+        let opt_values: Option<Vec<i32>> = opt_solution.as_ref().map(|s| binding.vars.iter().map(|d| pumpkin_solver::results::ProblemSolution::get_integer_value(s, *d)).collect());
+        let incumbent_values: Vec<Vec<i32>> =
+            incumbents.into_inner().iter().map(|s| binding.vars.iter().map(|d| pumpkin_solver::results::ProblemSolution::get_integer_value(s, *d)).collect()).collect();
+        // the checker's model has one extra variable for the solver's constant "Dummy"
+        let mut refm = refm;
+        refm.add_var(crate::ir::VarDecl::interval(1, 1));
+        let opt_values: Option<Vec<i32>> = opt_values.map(|mut v| {
+            v.push(1);
+            v
+        });
+        let incumbent_values: Vec<Vec<i32>> = incumbent_values
+            .into_iter()
+            .map(|mut v| {
+                v.push(1);
+                v
+            })
+            .collect();
+        let report = check_proof(&refm, &proof_text, &lits_text, self.inferences, self.hints, kind == 0, objective, opt_values.as_deref(), &incumbent_values);
+        match report {
+            Ok((n_inf, n_nogood)) => {
+                stats.expl_checked = n_inf;
+                stats.learned = n_nogood;
+                stats.decisions = n_inf + n_nogood; // >= 2 steps: non-trivial
+                Ok(())
+            }
+            Err((class, msg)) => Err(viol(&class, format!("{msg}\n--- proof ---\n{}\n--- literals ---\n{}", clip(&proof_text), clip(&lits_text)))),
+        }
     }
 }
+
+fn clip(s: &str) -> String {
+    if s.len() > 3000 {
+        format!("{} …[{} bytes]", &s[..3000], s.len())
+    } else {
+        s.to_string()
+    }
+}
+
+type Report = Result<(u64, u64), (String, String)>;
+
+#[allow(clippy::too_many_arguments)]
+fn check_proof(
+    refm: &RefModel,
+    proof: &str,
+    lits: &str,
+    inferences: bool,
+    hints_on: bool,
+    expect_unsat: bool,
+    objective: Option<(View, bool)>,
+    optimal: Option<&[i32]>,
+    incumbents: &[Vec<i32>],
+) -> Report {
+    let e = |c: &str, m: String| -> Report { Err((c.to_string(), m)) };
+    // ---- literal definitions ----
+    let mut defs: HashMap<i64, Atom> = HashMap::new();
+    for line in lits.lines() {
+        let line = line.trim();
+        if line.is_empty() {
+            continue;
+        }
+        // <code> [<name> <op> <value>]
+        let Some((code, rest)) = line.split_once(' ') else { return e("H-PROOF:bad-literal-definition", format!("cannot parse {line:?}")) };
+        let inner = rest.trim().trim_start_matches('[').trim_end_matches(']');
+        let parts: Vec<&str> = inner.split_whitespace().collect();
+        if parts.len() != 3 {
+            return e("H-PROOF:bad-literal-definition", format!("cannot parse {line:?}"));
+        }
+        // "Dummy" is the solver's always-true variable (fixed to 1); it is modelled as one more
+        // variable with the singleton domain {1}
+        let var = if parts[0] == "Dummy" { Some(refm.vars.len() - 1) } else { parts[0].strip_prefix('x').and_then(|s| s.parse::<usize>().ok()).filter(|v| *v + 1 < refm.vars.len()) };
+        let Some(var) = var else {
+            return e("H-PROOF:literal-over-unknown-variable", format!("the definition {line:?} names a variable the model does not have"));
+        };
+        let op = match parts[1] {
+            "<=" => 0,
+            "==" => 1,
+            ">=" => 2,
+            "!=" => 3,
+            _ => return e("H-PROOF:bad-literal-definition", format!("cannot parse {line:?}")),
+        };
+        let (Ok(code), Ok(value)) = (code.parse::<i64>(), parts[2].parse::<i64>()) else { return e("H-PROOF:bad-literal-definition", format!("cannot parse {line:?}")) };
+        defs.insert(code, Atom { var, op, value });
+    }
+    let atom = |code: i64| -> Option<Atom> {
+        let a = defs.get(&code.abs())?;
+        Some(if code > 0 { *a } else { a.negate() })
+    };
+
+    let full_domains: Vec<Vec<i32>> = refm.vars.iter().map(|v| v.values.clone()).collect();
+    // steps: id -> clause (as atoms); inference ids since the last nogood
+    let mut steps: BTreeMap<u64, Vec<Atom>> = BTreeMap::new();
+    let mut axioms: Vec<Atom> = vec![]; // objective bounds in force (conjunction)
+    let mut empty_verified = false;
+    let mut conclusion: Option<String> = None;
+    let mut n_inf = 0u64;
+    let mut n_nogood = 0u64;
+
+    for (ln, line) in proof.lines().enumerate() {
+        let t: Vec<&str> = line.split_whitespace().collect();
+        if t.is_empty() {
+            continue;
+        }
+        if conclusion.is_some() {
+            return e("H-PROOF:steps-after-conclusion", format!("line {} follows the conclusion", ln + 1));
+        }
+        match t[0] {
+            "i" => {
+                n_inf += 1;
+                if !inferences {
+                    return e("H-PROOF:inference-in-scaffold", format!("line {}: a scaffold proof contains an inference", ln + 1));
+                }
+                let Ok(id) = t[1].parse::<u64>() else { return e("H-PROOF:bad-step", format!("line {}: {line:?}", ln + 1)) };
+                let mut prem: Vec<Atom> = vec![];
+                let mut concl: Option<Atom> = None;
+                let mut tag: Option<usize> = None;
+                let mut i = 2;
+                let mut after_zero = false;
+                while i < t.len() {
+                    let tok = t[i];
+                    if let Some(c) = tok.strip_prefix("c:") {
+                        tag = c.parse::<usize>().ok();
+                    } else if tok.starts_with("l:") {
+                    } else if tok == "0" {
+                        after_zero = true;
+                    } else {
+                        let Ok(code) = tok.parse::<i64>() else { return e("H-PROOF:bad-step", format!("line {}: {line:?}", ln + 1)) };
+                        let Some(a) = atom(code) else { return e("H-PROOF:unmapped-literal-code", format!("line {}: code {code} has no definition", ln + 1)) };
+                        if after_zero {
+                            concl = Some(a);
+                        } else {
+                            prem.push(a);
+                        }
+                    }
+                    i += 1;
+                }
+                // semantic check
+                let show = || format!("{} -> {}", prem.iter().map(|a| a.show()).collect::<Vec<_>>().join(" & "), concl.map(|a| a.show()).unwrap_or("false".into()));
+                match tag {
+                    Some(tg) if tg >= 1 && tg <= refm.cons.len() => {
+                        let con = &refm.cons[tg - 1];
+                        let mut scope = con.scope();
+                        scope.extend(prem.iter().map(|a| a.var));
+                        if let Some(c) = concl {
+                            scope.push(c.var);
+                        }
+                        scope.sort();
+                        scope.dedup();
+                        if let Some(a) = assignments_over(&refm.vars, &scope).into_iter().find(|a| con.holds(a) && prem.iter().all(|p| p.holds(a)) && concl.is_none_or(|c| !c.holds(a))) {
+                            return e(
+                                "H-PROOF:inference-does-not-follow-from-its-constraint",
+                                format!("line {}: inference {} tagged with constraint #{} {} is refuted by the assignment {a:?}", ln + 1, show(), tg - 1, con.to_json().to_string()),
+                            );
+                        }
+                    }
+                    Some(tg) => return e("H-PROOF:unknown-constraint-tag", format!("line {}: tag {tg} does not name a posted constraint", ln + 1)),
+                    None => {
+                        // untagged: a fact of the nogood propagator (user clause / learned nogood) -
+                        // must be implied by the model and the objective bounds in force - or the
+                        // objective bound itself
+                        let refuted = refm.sols.iter().find(|s| axioms.iter().all(|x| x.holds(s)) && prem.iter().all(|p| p.holds(s)) && concl.is_none_or(|c| !c.holds(s)));
+                        if let Some(s) = refuted {
+                            let mut accepted = false;
+                            if let Some((obj, minimise)) = objective {
+                                // the strengthening step: (not premise) is "objective strictly
+                                // better than an incumbent the harness saw"
+                                if prem.len() == 1 && concl.is_none() && prem[0].var == obj.var {
+                                    let clause = prem[0].negate();
+                                    for inc in incumbents {
+                                        let v = obj.eval(inc);
+                                        let better = |x: i128| if minimise { x < v } else { x > v };
+                                        if refm.vars[obj.var].values.iter().all(|x| clause.holds_value(*x) == better(obj.eval_value(*x))) {
+                                            accepted = true;
+                                        }
+                                    }
+                                    if accepted {
+                                        axioms.push(clause);
+                                    }
+                                }
+                            }
+                            if !accepted {
+                                return e("H-PROOF:untagged-inference-not-implied-by-model", format!("line {}: untagged inference {} is refuted by the solution {s:?}", ln + 1, show()));
+                            }
+                        }
+                    }
+                }
+                let mut clause: Vec<Atom> = prem.iter().map(|p| p.negate()).collect();
+                if let Some(c) = concl {
+                    clause.push(c);
+                }
+                steps.insert(id, clause);
+            }
+            "n" => {
+                n_nogood += 1;
+                let Ok(id) = t[1].parse::<u64>() else { return e("H-PROOF:bad-step", format!("line {}: {line:?}", ln + 1)) };
+                let mut clause: Vec<Atom> = vec![];
+                let mut hint_ids: Option<Vec<u64>> = None;
+                for tok in &t[2..] {
+                    if *tok == "0" && hint_ids.is_none() {
+                        hint_ids = Some(vec![]);
+                    } else if let Some(h) = hint_ids.as_mut() {
+                        let Ok(x) = tok.parse::<u64>() else { return e("H-PROOF:bad-step", format!("line {}: {line:?}", ln + 1)) };
+                        h.push(x);
+                    } else {
+                        let Ok(code) = tok.parse::<i64>() else { return e("H-PROOF:bad-step", format!("line {}: {line:?}", ln + 1)) };
+                        let Some(a) = atom(code) else { return e("H-PROOF:unmapped-literal-code", format!("line {}: code {code} has no definition", ln + 1)) };
+                        clause.push(a);
+                    }
+                }
+                if hints_on && hint_ids.is_none() && inferences {
+                    return e("H-PROOF:hints-missing", format!("line {}: a hinted proof contains a nogood without hints", ln + 1));
+                }
+                if inferences {
+                    // reverse unit propagation over domains
+                    let usable: Vec<&Vec<Atom>> = match &hint_ids {
+                        Some(h) => {
+                            let mut u = vec![];
+                            for x in h {
+                                match steps.get(x) {
+                                    Some(c) => u.push(c),
+                                    None => return e("H-PROOF:hint-to-unknown-step", format!("line {}: hint {x} does not name an earlier step", ln + 1)),
+                                }
+                            }
+                            u
+                        }
+                        None => steps.values().collect(),
+                    };
+                    let mut dom: Vec<Vec<i32>> = full_domains.clone();
+                    for a in &clause {
+                        let na = a.negate();
+                        dom[na.var].retain(|x| na.holds_value(*x));
+                    }
+                    let mut conflict = dom.iter().any(|d| d.is_empty());
+                    let mut changed = true;
+                    while changed && !conflict {
+                        changed = false;
+                        for c in &usable {
+                            let mut sat = false;
+                            let mut undecided: Vec<&Atom> = vec![];
+                            for a in c.iter() {
+                                let d = &dom[a.var];
+                                if d.iter().all(|x| a.holds_value(*x)) {
+                                    sat = true;
+                                    break;
+                                }
+                                if d.iter().any(|x| a.holds_value(*x)) {
+                                    undecided.push(a);
+                                }
+                            }
+                            if sat {
+                                continue;
+                            }
+                            if undecided.is_empty() {
+                                conflict = true;
+                                break;
+                            }
+                            if undecided.len() == 1 {
+                                let a = *undecided[0];
+                                dom[a.var].retain(|x| a.holds_value(*x));
+                                changed = true;
+                                if dom[a.var].is_empty() {
+                                    conflict = true;
+                                    break;
+                                }
+                            }
+                        }
+                    }
+                    if !conflict {
+                        return e(
+                            "H-PROOF:nogood-not-derivable",
+                            format!(
+                                "line {}: nogood {} is not derivable by reverse unit propagation from {}",
+                                ln + 1,
+                                clause.iter().map(|a| a.show()).collect::<Vec<_>>().join(" | "),
+                                if hint_ids.is_some() { "its hinted steps" } else { "the preceding steps" }
+                            ),
+                        );
+                    }
+                }
+                if clause.is_empty() {
+                    empty_verified = true;
+                }
+                steps.insert(id, clause);
+            }
+            "d" => {
+                if let Ok(id) = t[1].parse::<u64>() {
+                    steps.remove(&id);
+                }
+            }
+            "c" => conclusion = Some(t[1..].join(" ")),
+            other => return e("H-PROOF:bad-step", format!("line {}: unknown step kind {other:?}", ln + 1)),
+        }
+    }
+    match conclusion.as_deref() {
+        None => return e("H-PROOF:no-conclusion", "the solver concluded but the proof has no conclusion line".into()),
+        Some("UNSAT") => {
+            if !expect_unsat {
+                return e("H-PROOF:wrong-conclusion", "UNSAT conclusion for an optimality result".into());
+            }
+            if !empty_verified {
+                return e("H-PROOF:unsat-without-empty-nogood", "the UNSAT conclusion is not preceded by the empty nogood".into());
+            }
+        }
+        Some(lit) => {
+            if expect_unsat {
+                return e("H-PROOF:wrong-conclusion", format!("conclusion {lit:?} for an unsatisfiable model"));
+            }
+            let Ok(code) = lit.parse::<i64>() else { return e("H-PROOF:bad-step", format!("conclusion {lit:?}")) };
+            let Some(a) = atom(code) else { return e("H-PROOF:unmapped-literal-code", format!("conclusion code {code} has no definition")) };
+            let (obj, minimise) = objective.unwrap();
+            let opt = optimal.unwrap();
+            let best = refm.sols.iter().map(|s| obj.eval(s)).reduce(|x, y| if minimise == (y < x) { y } else { x });
+            if a.var != obj.var {
+                return e("H-PROOF:bound-over-wrong-variable", format!("the optimality conclusion {} is not over the objective variable x{}", a.show(), obj.var));
+            }
+            if !a.holds(opt) {
+                return e("H-PROOF:bound-excludes-the-optimal-solution", format!("the optimality conclusion {} does not hold in the returned solution {opt:?}", a.show()));
+            }
+            // the constant is the optimum: the bound is tight at the optimal value of the variable
+            let tight = match a.op {
+                0 | 2 | 1 => a.value == opt[obj.var] as i64,
+                _ => false,
+            };
+            if !tight || Some(obj.eval(opt)) != best {
+                return e("H-PROOF:bound-is-not-the-optimum", format!("the optimality conclusion {} does not state the optimum {best:?} (optimal solution {opt:?})", a.show()));
+            }
+        }
+    }
+    Ok((n_inf, n_nogood))
+}
+
+/// Workload: models that end in UNSAT or in an optimum, with proof logging on.
+pub fn generate(prop: &str, rng: &mut crate::rng::Rng, thorough: bool) -> ProofCase {
+    use crate::gen::*;
+    // Clauses posted through the API cannot be tagged ("tagging clauses is not implemented"; the
+    // code notes that untagged nogoods are a gap of the proof logging), so a derivation that rests
+    // on one has no inference a checker could validate; they are outside this workload.
+    let mut pool: Vec<Kind> = CORE_KINDS.iter().copied().filter(|k| !matches!(k, Kind::PredClause | Kind::LitClause | Kind::LitConj)).collect();
+    pool.push(Kind::Cumulative);
+    let mut sw = Swarm::draw(rng, &pool, thorough);
+    let optimise = rng.chance(0.45);
+    if !optimise {
+        // unsatisfiable models are the interesting ones
+        sw.planted = false;
+        sw.min_cons = 2;
+        sw.max_cons = 6;
+    }
+    sw.max_space = 3_000;
+    let (vars, cons) = gen_model(rng, &sw);
+    let mut ops = model_ops(&vars, &cons);
+    if optimise {
+        ops.push(Op::Optimise { obj: gen_view(rng, vars.len(), true), minimise: rng.chance(0.5), sat_unsat: rng.chance(0.5), interrupt: None });
+    } else {
+        ops.push(Op::Satisfy { interrupt: None });
+    }
+    let mut knobs = crate::sched::Knobs::random(rng);
+    knobs.uip = true; // proof logging is only meaningful with learning
+    let br = if rng.chance(0.8) { crate::sched::BrancherSpec::random_sched(rng) } else { crate::sched::BrancherSpec::random_builtin(rng) };
+    let mut checks = default_checks();
+    checks.bounds = false;
+    let case = base_case(prop, "proof", knobs, br, ops, checks);
+    let mode = rng.below(10);
+    ProofCase { case, inferences: mode >= 2, hints: mode >= 6 }
+}
+
+#[allow(dead_code)]
+fn _unused(_: &VarDecl, _: &Con) {}
